@@ -135,7 +135,11 @@ def flows_in(fx, fn):
         except Exception:
             continue
         if not is_handler_type(ty):
-            continue
+            try:
+                if not is_handler_type(fn.cty(n)):      # a handler type hidden behind an alias (using handler_t = ...)
+                    continue
+            except Exception:
+                continue
         ent = entity_of(fn, n)
         if ent is None:
             continue
